@@ -22,6 +22,7 @@ HEADERS = [
     '"""Methods of the project."""\n',
     '"""\nModule docstring of the project.\n\n    An indented second paragraph.\n"""\n\nimport os\n',
     "# -*- coding: utf-8 -*-\n# a comment\nimport os\n",
+    "PAGE_BREAK = '\x0c'  # a raw form feed inside the literal\nBANNER = \"\"\"page 1\x0cpage 2\n\"\"\"\n",
 ]
 
 
@@ -89,7 +90,7 @@ def emit_node(kind, ir_j, name, method=False):
 
     ir = G.to_py_ir(copy.deepcopy(ir_j))
     if kind == "class":
-        return emit.class_(ir, class_name=name)
+        return emit.class_(ir, class_name=name.split(".")[-1])
     if kind == "argparse_function":
         return emit.argparse_function(ir, function_name=name)
     return emit.function(ir, function_name=name.split(".")[-1], function_type="self" if method else "static")
@@ -100,7 +101,7 @@ def render(kind, ir_j, name, method=False, before="", after=""):
     from black import Mode, format_str
 
     node = emit_node(kind, ir_j, name, method)
-    if kind == "function" and method:
+    if method and "." in name:
         node = ast.ClassDef(name=name.split(".")[0], bases=[ast.Name("object", ast.Load())], keywords=[], body=[node], decorator_list=[], type_params=[])
     src = ast.unparse(ast.fix_missing_locations(ast.Module(body=[node], type_ignores=[])))
     src = format_str(src, mode=Mode(target_versions=set(), line_length=119, is_pyi=False, string_normalization=False))
@@ -120,6 +121,8 @@ def gen_project(r, n_kinds=None, prestates=PRESTATES, allow_method=True, allow_b
     for k in kinds:
         method = allow_method and k == "function" and r.random() < 0.4
         name = default_name(k, method)
+        if allow_method and k == "class" and r.random() < 0.2:
+            method, name = True, "Outer.ConfigClass"  # a class nested in another class ("method" = dotted name)
         files = []
         if k == truth:
             tb = r.choice(HEADERS) if allow_before and r.random() < 0.3 else ""
@@ -137,7 +140,8 @@ def gen_project(r, n_kinds=None, prestates=PRESTATES, allow_method=True, allow_b
                 content = ""
             elif ps == "rebound" and k == "class":
                 # the class name is bound to something that is not a class (an assignment, a function parameter)
-                content = before + r.choice(["%s = make(%r)\n" % (name, name), "def factory(%s=None):\n    return %s\n" % (name, name)])
+                sn = name.split(".")[-1]
+                content = before + r.choice(["%s = make(%r)\n" % (sn, sn), "def factory(%s=None):\n    return %s\n" % (sn, sn)])
             elif ps == "rebound":
                 ps = "absent"
                 content = before or "import os\n"
